@@ -84,12 +84,18 @@ Inductive ccase :=
        (queries : list (Z * option string))
   (* sortHTTPRoutes (tcp = false) / sortTCPRoutes (tcp = true): (ns, name, stamp) in the order
      handed to the code; observed ns/name order *)
-| CRouteSort (id : N) (tcp : bool) (routes : list (string * string * Z)) (observed : list string).
+| CRouteSort (id : N) (tcp : bool) (routes : list (string * string * Z)) (observed : list string)
+  (* EndpointSlices through the real pipeline: drain-support, the name of the service port, the
+     slices as (ports, endpoints) in the order they were stored, and per target the server of
+     the backend: None = none, Some true = serving, Some false = weight 0 *)
+| CSlices (id : N) (drain : bool) (pname : string)
+          (slices : list (list (string * Z) * list (string * option bool)))
+          (queries : list (string * Z * option bool)).
 
 Definition case_id (c : ccase) : N :=
   match c with
   | CSort i _ _ | CKeys i _ _ _ | CMapper i _ _ _ _ _ | CHosts i _ _ _
-  | CAlloc i _ _ _ | COAuth i _ _ | CAlias i _ _ _ | CTcp i _ _ _ | CRouteSort i _ _ _ => i
+  | CAlloc i _ _ _ | COAuth i _ _ | CAlias i _ _ _ | CTcp i _ _ _ | CRouteSort i _ _ _ | CSlices i _ _ _ _ => i
   end.
 
 Definition mk_ing (ns name : string) (stamp : Z) : ingress :=
@@ -153,6 +159,13 @@ Definition case_ok (c : ccase) : bool :=
   | CRouteSort _ _ routes obs =>
       str_list_eqb (map gr_full (sort_routes (map (fun t => {| gr_ing := mk_ing (fst (fst t)) (snd (fst t)) (snd t);
                                                                  gr_claims := [] |}) routes))) obs
+  | CSlices _ drain pname slices queries =>
+      let l := map (fun s => {| sl_ports := fst s; sl_eps := snd s |}) slices in
+      forallb (fun q => match slice_server drain pname l (fst q), snd q with
+                        | Some a, Some b => Bool.eqb a b
+                        | None, None => true
+                        | _, _ => false
+                        end) queries
   end.
 
 Definition mismatches (cs : list ccase) : list N :=
